@@ -27,7 +27,8 @@ META = {
                    "function; an obligation fails only when an explicitly non-invariant source (ISO week/year number, "
                    "calendar month/day/year, month/year deltas) reaches it."
                    " Also: keyword census of every relativedelta call (relative fields only) and the month/year frame end used as an anchor of backward tasks (known finding F55)."
-                   " Round 3: no month-length table without leap handling, limit-copy completeness, process-state rule with census.",
+                   " Round 3: no month-length table without leap handling, limit-copy completeness, process-state rule with census."
+                   " Round 4: limit period index under a whole-week shift.",
     "assumptions": ["UTC project (the property's premise): time-zone conversion is a fixed offset",
                     "project duration in months/years sizes the horizon; its use as the anchor of backward tasks without a deadline is reported by R14.3 (known finding F55)"],
 }
